@@ -16,6 +16,14 @@
 #define MAXID 4096
 static struct json_object *ptr[MAXID];
 static int alive[MAXID];
+/* "nomem" op: cases that add members with JSON_C_OBJECT_ADD_CONSTANT_KEY (the key is the caller's storage, the library
+ * owns no copy) do not compare the per-line block balance with the model, which counts one key block per member; the
+ * balance at the end of the case (nothing left once every reference is gone) is compared as always.  The harness keeps
+ * such keys alive until the case ends. */
+static int nomem;
+#define MAXCK 4096
+static char *ckeys[MAXCK];
+static int nck;
 static int nextid;
 
 static int counting;
@@ -239,7 +247,10 @@ static void show(long ret, int made)
 		default: putchar('?'); break;
 		}
 	}
-	printf("] mem=%ld\n", balance);
+	if (nomem)
+		printf("] mem=-\n");
+	else
+		printf("] mem=%ld\n", balance);
 }
 
 /* node operand: a live id, else NULL with *ok = 0 (the generator never does that) */
@@ -301,6 +312,10 @@ static void cleanup(void)
 	counting = 0;
 	nextid = 0;
 	balance = 0;
+	for (int i = 0; i < nck; i++)
+		free(ckeys[i]);
+	nck = 0;
+	nomem = 0;
 }
 
 int main(void)
@@ -328,7 +343,15 @@ int main(void)
 			for (int i = 0; i < nextid; i++)
 				n += alive[i];
 			/* "no memory remains allocated" once every reference has been released */
-			printf("end nodes=%d none-left=%s ## mem=%ld\n", n, n ? "n/a" : (balance == 0 ? "yes" : "no"), balance);
+			if (nomem)
+				printf("end nodes=%d none-left=%s ## mem=-\n", n, n ? "n/a" : (balance == 0 ? "yes" : "no"));
+			else
+				printf("end nodes=%d none-left=%s ## mem=%ld\n", n, n ? "n/a" : (balance == 0 ? "yes" : "no"), balance);
+		}
+		else if (NW == 1 && !strcmp(W[0], "nomem"))
+		{
+			nomem = 1;
+			puts("ok");
 		}
 		else if (NW == 1 && !strncmp(W[0], "new", 3) && strlen(W[0]) == 4)
 		{
@@ -377,7 +400,10 @@ int main(void)
 			counting = 1;
 			int r = opts ? json_object_object_add_ex(o, k, v, opts) : json_object_object_add(o, k, v);
 			counting = 0;
-			free(k);
+			if ((opts & JSON_C_OBJECT_ADD_CONSTANT_KEY) && nck < MAXCK)
+				ckeys[nck++] = k; /* the table may point at it: lives until the case ends */
+			else
+				free(k);
 			show(r, -1);
 		}
 		else if (NW == 3 && !strcmp(W[0], "odel"))
